@@ -783,7 +783,7 @@ func WaitForErrAny(
 	}
 	cases[2] = reflect.SelectCase{
 		Dir:  reflect.SelectRecv,
-		Chan: reflect.ValueOf(t),
+		Chan: reflect.ValueOf(mach.WhenErr(ctx)),
 	}
 	for i, ch := range chans {
 		cases[predef+i] = reflect.SelectCase{
@@ -802,7 +802,7 @@ func WaitForErrAny(
 	case 1:
 		return am.ErrTimeout
 	case 2:
-		return mach.Err()
+		return fmt.Errorf("%s: %w", am.StateException, mach.Err())
 	default:
 		return nil
 	}
